@@ -120,7 +120,11 @@ def _seq(case, m, res):
             rule, order = RULES[ri]
             res["transitions"] += 1
             if ri not in ref:
-                ref[ri] = float(np.dot(data, _areas(m, rule, order)))
+                try:
+                    ref[ri] = float(np.dot(data, _areas(m, rule, order)))
+                except Exception as e:
+                    V.append({"oracle": "seq", "sig": "c06:areas-raise:%s" % type(e).__name__, "msg": "compute_face_areas(%s,%s) raised %r" % (rule, order, e), "focus": focus})
+                    break
             try:
                 v = float(da.integrate(quadrature_rule=rule, order=order).values)
             except Exception as e:
@@ -163,7 +167,12 @@ def run_case(case):
     ref_area = {}
     datas = build.data_alphabet(m.n_face, ("identity", "generic", "ones", "int", "bool", "f32", "impulses"))
     for rule, order in rules:
-        A = ref_area.setdefault((rule, order), _areas(m, rule, order))
+        try:
+            A = ref_area.setdefault((rule, order), _areas(m, rule, order))
+        except Exception as e:
+            # the weights themselves cannot be computed for a rule/order the statement quantifies over: integrate() cannot be right either
+            V.append({"oracle": "integrate", "sig": "c06:areas-raise:%s" % type(e).__name__, "msg": "compute_face_areas(%s,%s) on a fresh %s grid raised %r" % (rule, order, case["mesh"], e), "focus": dict(case, only={"rule": rule, "order": order, "data": "identity", "lead": []})})
+            continue
         default = (rule, order) == ("triangular", 4)
         for dname, dbase in datas:
             simple = dname in ("identity", "generic", "ones")
